@@ -368,6 +368,11 @@ func Materialise(w World, root string) (*Built, error) {
 		if err := os.WriteFile(p, fb, 0o644); err != nil {
 			return nil, err
 		}
+		if f.Special == "exec" {
+			if err := os.Chmod(p, 0o755); err != nil {
+				return nil, err
+			}
+		}
 	}
 	// what an isolated verifier process needs (cmd/worker "verify")
 	vf := VerifyFile{Entry: w.Entry, LineNorm: w.LineNorm, Keys: b.VerifierKeyMap(), Params: w.Params, LinksInProduct: w.LinksInProduct, RunDirRel: w.RunDirRel, LinkDirRel: w.LinkDirRel, LinkDirName: w.LinkDirName}
@@ -381,6 +386,22 @@ func Materialise(w World, root string) (*Built, error) {
 		p := filepath.Join(b.ProductDir, f.Path)
 		if err := os.MkdirAll(filepath.Dir(p), 0o755); err != nil {
 			return nil, err
+		}
+		if f.Special == "filelink" {
+			// a symbolic link to a regular file that lies outside the product directory: for a recorder
+			// that follows file links (always) it is a file with the content of its target
+			target := filepath.Join(root, "elsewhere", fmt.Sprintf("%03d-file", len(b.stored)))
+			b.stored = append(b.stored, target)
+			if err := os.MkdirAll(filepath.Dir(target), 0o755); err != nil {
+				return nil, err
+			}
+			if err := os.WriteFile(target, []byte(f.Content), 0o644); err != nil {
+				return nil, err
+			}
+			if err := os.Symlink(target, p); err != nil {
+				return nil, err
+			}
+			continue
 		}
 		if f.Special == "dirlink" {
 			// a symbolic link to a directory that lies outside the product directory
@@ -522,7 +543,14 @@ func ReadTree(dir string) map[string]string {
 		if err != nil || info.IsDir() {
 			return nil
 		}
-		if info.Mode().IsRegular() {
+		regular := info.Mode().IsRegular()
+		if info.Mode()&os.ModeSymlink != 0 {
+			// a link to a regular file is a file with the content of its target
+			if st, serr := os.Stat(p); serr == nil && st.Mode().IsRegular() {
+				regular = true
+			}
+		}
+		if regular {
 			rel, _ := filepath.Rel(dir, p)
 			data, _ := os.ReadFile(p)
 			out[filepath.ToSlash(rel)] = string(data)
